@@ -1,0 +1,13 @@
+//go:build verif
+
+package middleware
+
+// Verification hook (build tag verif): lets a harness observe route lookups.
+
+// VerifWrapRouter installs the default router if none is set and replaces it by wrap(router).
+func (c *Context) VerifWrapRouter(wrap func(Router) Router) {
+	if c.router == nil {
+		c.router = DefaultRouter(c.spec, c.api, WithDefaultRouterLoggerFunc(c.debugLogf))
+	}
+	c.router = wrap(c.router)
+}
